@@ -44,6 +44,10 @@ Fixpoint p_ty (t : aty) : list tok :=
       | _ => P PLParen :: sep_by comma (map p_ty ts) ++ [P PRParen]
       end
   | TRef m l t => P PAmp :: p_lt l ++ (if m then [KW Kmut] else []) ++ p_ty t
+  | TRaw m t => P PStar :: KW (if m then Kmut else Kconst) :: p_ty t
+  | TSlice t => P PLBracket :: p_ty t ++ [P PRBracket]
+  | TStr => [KW Kstr]
+  | TNever => [P PBang]
   end
 with p_garg (a : agarg) : list tok :=
   match a with GTy t => p_ty t | GLt l => p_lt l end.
@@ -83,11 +87,24 @@ Definition attr (b : bool) (k : kw) : list tok := if b then [P PHash; P PLBracke
 Fixpoint p_fields (i : nat) (fs : list aty) : list (list tok) :=
   match fs with [] => [] | t :: r => (FIELD i :: P PColon :: p_ty t) :: p_fields (S i) r end.
 
+Definition sattrs (fl : sflags) : list tok :=
+  attr fl.(sf_upstream) Kupstream ++ attr fl.(sf_fundamental) Kfundamental ++ attr fl.(sf_phantom_data) Kphantom_data
+  ++ attr fl.(sf_one_zst) Kone_zst.
+
+Fixpoint p_variants (i : nat) (vs : list (list aty)) : list tok :=
+  match vs with
+  | [] => []
+  | fs :: r => VARIANT i :: P PLBrace :: sep_by comma (p_fields 0 fs) ++ [P PRBrace; P PComma] ++ p_variants (S i) r
+  end.
+
 Definition p_item (it : aitem) : list tok :=
   match it with
+  | IEnum name params fl variants wcs =>
+      sattrs fl ++ [KW Kenum; ID name] ++ p_params 1 0 params ++ p_where 2 wcs
+      ++ [P PLBrace] ++ p_variants 0 variants ++ [P PRBrace]
   | IStruct name params fl fields wcs =>
       attr fl.(sf_upstream) Kupstream ++ attr fl.(sf_fundamental) Kfundamental ++ attr fl.(sf_phantom_data) Kphantom_data
-      ++ [KW Kstruct; ID name] ++ p_params 1 0 params ++ p_where 2 wcs
+      ++ attr fl.(sf_one_zst) Kone_zst ++ [KW Kstruct; ID name] ++ p_params 1 0 params ++ p_where 2 wcs
       ++ [P PLBrace] ++ sep_by comma (p_fields 0 fields) ++ [P PRBrace]
   | ITrait name params fl wcs =>
       attr fl.(tf_auto) Kauto ++ attr fl.(tf_marker) Kmarker ++ attr fl.(tf_upstream) Kupstream
@@ -131,6 +148,10 @@ Section Unresolve.
     | TScalar s => TScalar s
     | TTuple ts => TTuple (map (u_ty k) ts)
     | TRef m l t => TRef m (u_lt k l) (u_ty k t)
+    | TRaw m t => TRaw m (u_ty k t)
+    | TSlice t => TSlice (u_ty k t)
+    | TStr => TStr
+    | TNever => TNever
     end
   with u_garg (k : nat) (a : igarg) : agarg :=
     match a with GTy t => GTy (u_ty k t) | GLt l => GLt (u_lt k l) end.
@@ -147,12 +168,14 @@ Section Unresolve.
 End Unresolve.
 
 Definition item_name (it : iitem) : N :=
-  match it with IStruct n _ _ _ _ => n | ITrait n _ _ _ => n | IImpl _ _ _ _ _ _ _ => 0%N end.
+  match it with IStruct n _ _ _ _ => n | IEnum n _ _ _ _ => n | ITrait n _ _ _ => n | IImpl _ _ _ _ _ _ _ => 0%N end.
 
 Definition u_item (names : list N) (it : iitem) : aitem :=
   match it with
   | IStruct name params fl fields wcs =>
       IStruct name params fl (map (u_ty names false 1) fields) (map (u_qwc names false 1) wcs)
+  | IEnum name params fl variants wcs =>
+      IEnum name params fl (map (map (u_ty names false 1)) variants) (map (u_qwc names false 1) wcs)
   | ITrait name params fl wcs => ITrait name params fl (map (u_qwc names true 1) wcs)
   | IImpl params upstream positive tr args self wcs =>
       IImpl params upstream positive (name_of names tr) (map (u_garg names false 1) args) (u_ty names false 1 self)
